@@ -637,10 +637,18 @@ def fNest : Forest := (stepA Cfg.patched Forest.empty true (.new (veDict [(.s 0,
 theorem C01_counterexample_F30 :
     (stepA Cfg.patched fNest true (.setItem 1 (.s 1) (.ref 0))).out = .diverges := by decide
 
-/-- F79 (known): `l.insert(0, l[0])` puts one node object in two places. -/
+/-- the tree with every fix but the one for F79. -/
+def cfgBeforeF79 : Cfg := { Cfg.patched with insertCopiesOwn := false }
+
+/-- F79: without the fix `l.insert(0, l[0])` puts one node object in two places … -/
 theorem C01_counterexample_F79 :
-    Admissible Cfg.patched fList true (.lInsert 0 0 (.ref 1)) = false ∧
-      (stepA Cfg.patched fList true (.lInsert 0 0 (.ref 1))).forest.aliased = true := by decide
+    Admissible cfgBeforeF79 fList true (.lInsert 0 0 (.ref 1)) = false ∧
+      (stepA cfgBeforeF79 fList true (.lInsert 0 0 (.ref 1))).forest.aliased = true := by decide
+
+/-- … with it the element is copied and the forest stays well-formed (ids distinct included). -/
+theorem C01_fixed_F79 :
+    Admissible Cfg.patched fList true (.lInsert 0 0 (.ref 1)) = true ∧
+      (stepA Cfg.patched fList true (.lInsert 0 0 (.ref 1))).forest.wf = true := by decide
 
 /-! Non-vacuity: well-formed non-trivial forests exist and the hypotheses are satisfiable. -/
 example : fList.wf = true ∧ fList.ids.length = 2 := by decide
